@@ -635,7 +635,10 @@ fn flips_case(seed: u64, idx: u64, thorough: bool, stats: &mut Counts, soft: &mu
                 d2[*o as usize] = newb;
                 let img = make_image(&pr.dir, &d2, Some(64 * 1_024 * 1_024))?;
                 let lz4 = if rng.chance(1, 2) { pr.journal_lz4 } else { !pr.journal_lz4 };
-                let reply = w.ask(&img, lz4, &pr.names, false);
+                // in a third of the images: after the open, supersede + append 3 writes, close, reopen (a damaged record
+                // that was discarded must not swallow what is committed afterwards)
+                let append = rng.chance(1, 3);
+                let reply = w.ask(&img, lz4, &pr.names, append);
                 rm_rf(&img);
                 nflips += 1;
                 let field = field_at(&pr, *o);
@@ -659,7 +662,13 @@ fn flips_case(seed: u64, idx: u64, thorough: bool, stats: &mut Counts, soft: &mu
                     stats.inc(&format!("flips.outcome.panic.{field}"));
                     continue;
                 }
-                let got = parse_dump(reply.strip_prefix("ok ").unwrap_or("")).ok_or_else(|| Deviation::new("inconclusive:protocol", "bad dump"))?;
+                let (d1, d2) = if let Some(rest) = reply.strip_prefix("ok2 ") {
+                    let mut it = rest.splitn(2, ' ');
+                    (it.next().unwrap_or("").to_string(), it.next().map(str::to_string))
+                } else {
+                    (reply.strip_prefix("ok ").unwrap_or("").to_string(), None)
+                };
+                let got = parse_dump(&d1).ok_or_else(|| Deviation::new("inconclusive:protocol", "bad dump"))?;
                 let dg = dump_digest(&got);
                 if let Some(p) = digests.iter().position(|x| *x == dg) {
                     stats.inc(if p + 1 == digests.len() {
@@ -667,6 +676,20 @@ fn flips_case(seed: u64, idx: u64, thorough: bool, stats: &mut Counts, soft: &mu
                     } else {
                         "flips.outcome.opened_shorter_prefix"
                     });
+                    if let Some(d2) = d2 {
+                        let got2 = parse_dump(&d2).ok_or_else(|| Deviation::new("inconclusive:protocol", "bad dump"))?;
+                        let exp2 = with_appended(got.clone(), &pr.names);
+                        stats.inc("flips.append_checked");
+                        if got2 != exp2 {
+                            return Err(Deviation::new(
+                                "flip:writes-after-recovery-lost",
+                                format!(
+                                    "{what}: the open yielded the state after {p} commits; after superseding two recovered keys, appending 3 writes, closing and reopening: {}",
+                                    diff_dump(&got2, &exp2)
+                                ),
+                            ));
+                        }
+                    }
                     continue;
                 }
                 // not a prefix state: altered data was read as different data
